@@ -403,6 +403,12 @@ func (b *Batch) setFlagWithErr(f RecordFlag, i int, errs []error) {
 				// records in the split record.
 				from, to := b.findSplitRecord(idx)
 				for j := from; j <= to; j++ {
+					if b.recordStatuses[j].Flag == RecordFlagFilter {
+						// A filtered piece stays filtered: overwriting its flag
+						// would desynchronize filterCount and shift the active
+						// record indices used by every later Nack/SetRecords.
+						continue
+					}
 					b.recordStatuses[j].Flag = f
 					b.recordStatuses[j].Error = err
 				}
